@@ -276,3 +276,33 @@ def mc_registry(chk, universe, emit=True, timeout=3000):
             b = json.loads(t[1])
             out.append(([("Root", [DI.concretise(s, MCR_STRINGS) for s in b["samples"]])], {}, MCR_POLICY[b["policy"]], "mcr"))
     return out
+
+
+def two_level_cases(rng, n):
+    """two similar parent objects, each holding (directly / in a list / in a mapping / optionally) a child; the children are
+    similar but not identical: parents and children form two merge groups, and the merged parent refers to both children"""
+    cases = []
+    for _ in range(n):
+        c1 = {"u": rng.choice([1, "s"]), "w": 1}
+        c2 = {"u": rng.choice([2.5, "t", None]), "w": 2, "v": rng.choice([1, None])}
+        wrap = rng.choice(["direct", "list", "dict", "optional", "dictlist"])
+
+        def W(c, other):
+            if wrap == "direct":
+                return c
+            if wrap == "list":
+                return [c, dict(c)]
+            if wrap == "dict":
+                return {"k1": c, "k2": dict(c)}
+            if wrap == "dictlist":
+                return {"k1": [c], "k2": [dict(c)]}
+            return c
+        p1 = {"k": 1, "n": "a", "f": W(c1, c2)}
+        p2 = {"k": 2, "n": "b", "f": W(c2, c1)}
+        s1 = {"p": p1, "q": p2}
+        samples = [s1]
+        if wrap == "optional":
+            samples.append({"p": {"k": 3, "n": "c", "f": None}, "q": p2})
+        env = {"dkr": ["k\\d"]} if wrap in ("dict", "dictlist") else {}
+        cases.append(([("Root", samples)], env, rng.choice([[("exact", 0)], [("percent", 50)], [("number", 2)], [("percent", 70), ("number", 10)], [("number", 1)]]), "two"))
+    return cases
